@@ -167,6 +167,9 @@ func runOps(c *core.Ctx) core.Result {
 	gen := r.Fork()
 	st := c.Stats
 	t, ptr := mkSubject(p.SubjSeed, p.Depth)
+	if t.K == "iface" || t.K == "bigint" || t.K == "func" {
+		p.ByVal = true // *interface{} / **big.Int / *func are outside the documented mapping
+	}
 	st.Inc("scenario:ops")
 	st.SetAdd("mappers", mapperNames[p.Mapper])
 	t.kindsOf(func(k string) { st.SetAdd("kind_x_mapper", k+"/"+mapperNames[p.Mapper]) })
